@@ -201,6 +201,12 @@ def _configs(thorough, rnd):
     for ft in TYPES:
         for (ml, dl, size) in ((0, 1 << 20, 65536), (70000, 200000, 1024), (1 << 18, 0, 64 if thorough else 4096), (300, 100000, 64)):
             cfgs.append([ft, ml, dl, size, bool(rnd.randint(0, 1)), 1])
+    # payloads larger than a single frame can ever be (the 24-bit frame length): what fragmentation is for
+    huge = [('PAYLOAD', 0, (17 << 20) + 3, 1 << 20, True), ('REQUEST_RESPONSE', 9 << 20, (9 << 20) + 1, 4000000, False)]
+    if thorough:
+        huge += [('REQUEST_FNF', 0, 17 << 20, 16000000, True), ('REQUEST_STREAM', 17 << 20, 5, 1 << 20, True), ('REQUEST_CHANNEL', 5, 17 << 20, 1 << 21, False)]
+    for (ft, ml, dl, size, pre) in huge:
+        cfgs.append([ft, ml, dl, size, pre, 1])
     return cfgs
 
 
